@@ -171,7 +171,6 @@ class H5SliceConfig(DatasetConfig):
 
 @dataclass
 class CMRxReconConfig(DatasetConfig):
-    regex_filter: Optional[str] = None
     data_root: Optional[str] = None
     filenames_filter: Optional[list[str]] = None
     filenames_lists: Optional[list[str]] = None
@@ -194,6 +193,11 @@ class CalgaryCampinasConfig(H5SliceConfig):
 
 @dataclass
 class FakeMRIBlobsConfig(DatasetConfig):
+    sample_size: int = MISSING
+    num_coils: int = MISSING
+    spatial_shape: list[int] = MISSING
+    seed: Optional[int] = None
+    filenames: Optional[list[str]] = None
     pass_attrs: bool = True
 
 
